@@ -1,8 +1,12 @@
 (* C11 oracle.  Line protocol (tokens separated by one space, byte strings in hex):
      M <n> { <name> <np> { <pname> <0|1 optional> <int|str|bool|struct|optint> } }      -> "ok" followed by the methods whose optional parameters are not a tail
-     Q <0|1 bracket> <U | json> <N | json> <ncalls> { <name> <json array> }                -> 3 lines
+     W                                                                                     -> "window <isBatch window> <max nesting depth>"
+     B <hex of the raw request bytes | -> (empty input)>                                  -> 1 line; the input becomes the current one
+     Q <N | json> <ncalls> { <name> <json array> }     (an observation of the implementation on the current input) -> 3 lines
    json ::= n | t | f | #<hex literal> | s<hex> | [<n> json*n | {<n> (k<hex> json)*n
-   Reply to Q:
+   Reply to B (everything computed by the extracted Coq lexer / parser from the raw bytes):
+     parsed <0|1 is_batch> <length of the bytes after the first value | -1> wf=<b json_wf> rt=<b parse (print v) = v> <U | json>
+   Reply to Q (the model consumes the value the COQ parser produced):
      flags eq=<b> wf=<b> corr=<b> codes=<b> once=<b> cons=<b grammar_ok> devs=<names joined by + or ->
      model <N|json> <ncalls> {<name> <json array>}
      spec  <N|json> <ncalls> {<name> <json array>}
@@ -90,6 +94,7 @@ let ty_of = function
   | s -> failwith ("ty " ^ s)
 
 let ms : methods ref = ref []
+let cur : input ref = ref { i_bracket = false; i_parsed = None }
 
 let b01 x = if x then "1" else "0"
 
@@ -122,13 +127,30 @@ let () =
          let b = Buffer.create 64 in
          List.iter (fun m -> if not (optional_tail m.m_params) then (Buffer.add_string b " k"; hex_of_str b m.m_name)) !ms;
          print_endline ("ok" ^ Buffer.contents b)
+     | "W" -> Printf.printf "window %d %d\n" (int_of_nat batch_window) (int_of_nat max_depth)
+     | "B" ->
+         let bytes = if Array.length t < 2 || t.(1) = "-" then [] else str_of_hex t.(1) in
+         let bracket = is_batch bytes in
+         let pf = parse_first bytes in
+         cur := { i_bracket = bracket; i_parsed = (match pf with Some (v, _) -> Some v | None -> None) };
+         let b = Buffer.create 256 in
+         (match pf with
+          | None -> Buffer.add_string b (Printf.sprintf "parsed %s -1 wf=1 rt=1 U" (b01 bracket))
+          | Some (v, rest) ->
+              let wf = json_wf max_depth v in
+              (* run-time instance of C11_json_print_parse; the canonical printer is neither tail recursive nor
+                 linear on deep nesting, so only for inputs up to 4 KB *)
+              let rt = List.compare_length_with bytes 4096 > 0 ||
+                       (match parse_first (print v) with
+                        | Some (v', []) -> json_eqb v v'
+                        | _ -> false) in
+              Buffer.add_string b (Printf.sprintf "parsed %s %d wf=%s rt=%s " (b01 bracket) (List.length rest) (b01 wf) (b01 rt));
+              sj b v);
+         print_endline (Buffer.contents b)
      | "Q" ->
-         let bracket = t.(!p) = "1" in
-         incr p;
-         let parsed = popt t p "U" in
          let out = popt t p "N" in
          let calls = pcalls t p in
-         let inp = { i_bracket = bracket; i_parsed = parsed } in
+         let inp = !cur in
          let model = handle coerce_go zero_go run_echo !ms inp in
          let spec = spec_handle coerce_go zero_go run_echo !ms inp in
          let obs = (calls, out) in
